@@ -17,12 +17,17 @@
      BodySyntax      syntax error / truncation below the imports -> ParseError `f has syntax errors` (parseSpecs, in file order)
      ForeignDetect   foreign file of no detectable format -> plain error `error detecting input file format for f`
      ForeignConvert  foreign file that fails conversion   -> ParseError `f has unknown format: ...`
-                     (both in the parallel first stage of parseSpecs; the first goroutine to fail wins) *)
+     ForeignAmbiguous foreign file with two format signatures -> plain error `input file format for f could be one of {..}`
+     ForeignJson     a .json file that is not JSON            -> plain error `error converting spec to yaml for: f`
+                     (all four in the parallel first stage of parseSpecs; the first goroutine to fail wins)
+     PbDecode        a compiled model (.pb / .pb.json / .textpb) that does not decode: the error is kept in stage 1
+                     and reported in stage 2, in file order -> plain error `error parsing f: ...`
+   Which class a file of a given name and content falls into is computed by the dispatch model Imports/Foreign.v. *)
 From Coq Require Import List NArith Arith Bool.
 Import ListNotations.
 Require Import Verif.Imports.Rules Verif.Imports.Collect.
 
-Inductive fault := ReadErr | ImportSyntax | BodySyntax | ForeignDetect | ForeignConvert.
+Inductive fault := ReadErr | ImportSyntax | BodySyntax | ForeignDetect | ForeignConvert | ForeignAmbiguous | ForeignJson | PbDecode.
 Definition faults := idx -> option fault.
 
 Inductive err :=
@@ -30,24 +35,30 @@ Inductive err :=
 | ESyntax (f:idx)            (* syslutil.Exitf(ParseError, "f has syntax errors") *)
 | EWrap (parent:idx) (e:err) (* syslutil.Exitf(ImportError, "error reading parent: <e>") after g.Wait() *)
 | EDetect (f:idx)            (* plain error from detectFileType *)
-| EConvert (f:idx).          (* syslutil.Exitf(ParseError, "f has unknown format: ...") *)
+| EConvert (f:idx)           (* syslutil.Exitf(ParseError, "f has unknown format: ...") *)
+| EAmbiguous (f:idx)         (* plain error from detectFileType: two signatures match *)
+| EJson (f:idx)              (* plain error from detectFileType: yaml.JSONToYAML failed *)
+| EPbDecode (f:idx).         (* fmt.Errorf("error parsing f: %w", <decoder's error>) in stage 2 *)
 
 (* cmd/sysl main2: syslutil.Exit carries its code, any other error is 1 *)
 Definition exit_code (e:err) : N :=
-  match e with EReadFail _ => 1 | ESyntax _ => 2 | EWrap _ _ => 1 | EDetect _ => 1 | EConvert _ => 2 end%N.
+  match e with EReadFail _ => 1 | ESyntax _ => 2 | EWrap _ _ => 1 | EDetect _ => 1 | EConvert _ => 2
+             | EAmbiguous _ => 1 | EJson _ => 1 | EPbDecode _ => 1 end%N.
 
 Fixpoint names (e:err) (f:idx) : bool :=
   match e with
-  | EReadFail x | ESyntax x | EDetect x | EConvert x => N.eqb x f
+  | EReadFail x | ESyntax x | EDetect x | EConvert x | EAmbiguous x | EJson x | EPbDecode x => N.eqb x f
   | EWrap p e' => N.eqb p f || names e' f
   end.
 
 Definition collect_fault (fl:faults) (f:idx) : bool :=
   match fl f with Some ReadErr | Some ImportSyntax => true | _ => false end.
 Definition foreign_fault (fl:faults) (f:idx) : bool :=
-  match fl f with Some ForeignDetect | Some ForeignConvert => true | _ => false end.
+  match fl f with Some ForeignDetect | Some ForeignConvert | Some ForeignAmbiguous | Some ForeignJson => true | _ => false end.
+(* what the second stage of parseSpecs reports, in file order: a syntax error of the (converted) text, or the
+   decoding error of a compiled model that the first stage kept *)
 Definition body_fault (fl:faults) (f:idx) : bool :=
-  match fl f with Some BodySyntax => true | _ => false end.
+  match fl f with Some BodySyntax | Some PbDecode => true | _ => false end.
 Definition parse_fault (fl:faults) (f:idx) : bool := foreign_fault fl f || body_fault fl f.
 
 Inductive fphase := FEntry | FReading | FWaiting (first:option err).
@@ -198,7 +209,11 @@ Inductive outcome :=
 | Stuck.                      (* the outermost collectSpecs never returned / flatten ran out of fuel: shown impossible *)
 
 Definition foreign_err (fl:faults) (f:idx) : err :=
-  match fl f with Some ForeignConvert => EConvert f | _ => EDetect f end.
+  match fl f with
+  | Some ForeignConvert => EConvert f | Some ForeignAmbiguous => EAmbiguous f | Some ForeignJson => EJson f
+  | _ => EDetect f end.
+Definition body_err (fl:faults) (f:idx) : err :=
+  match fl f with Some PbDecode => EPbDecode f | _ => ESyntax f end.
 
 (* parseSpecs: stage 1 converts every foreign file in its own goroutine, g.Wait() returns the first
    error (`choice` = which of the failing conversions returns first); stage 2 parses the files in order *)
@@ -209,7 +224,7 @@ Definition parse_specs (fl:faults) (choice:nat) (l:list idx) : outcome :=
                | None => Error (foreign_err fl x)
                end
   | [] => match find (body_fault fl) l with
-          | Some f => Error (ESyntax f)
+          | Some f => Error (body_err fl f)
           | None => Model l
           end
   end.
